@@ -261,6 +261,12 @@ struct CallCtx {
     if (optional && (k % 3 == 0)) return nullptr;
     size_t i = (size_t) (((k % n) + n) % n);
     void* p = i < v1.size() ? v1[i] : v2[i - v1.size()];
+    // two output (non-const) Coefficient parameters of one call never receive the same handle: that is a caller error in any
+    // interface (ppl_Grid_frequency with freq_n and val_n aliased divides by the value it has just overwritten)
+    if (!is_const && std::string(HTN(type)) == "Coefficient") {
+      for (long t = 0; t < n && std::find(mutable_used.begin(), mutable_used.end(), p) != mutable_used.end(); ++t) { i = (i + 1) % (size_t) n; p = i < v1.size() ? v1[i] : v2[i - v1.size()]; }
+      if (std::find(mutable_used.begin(), mutable_used.end(), p) != mutable_used.end()) return nullptr;
+    }
     if (is_const) const_used.push_back({ type, p }); else mutable_used.push_back(p);
     picked.push_back({ type, p });
     return p;
